@@ -532,9 +532,11 @@ Image::Image(FILE* f, ssize_t width, ssize_t height, bool has_alpha,
       has_alpha(has_alpha),
       channel_width(channel_width),
       max_value(max_value ? max_value : mask_for_width(this->channel_width)) {
+  // If the read fails, the destructor won't run, so don't leak the buffer
   size_t num_bytes = this->get_data_size();
-  this->data.raw = malloc(num_bytes);
-  freadx(f, this->data.raw, num_bytes);
+  auto new_data = malloc_unique(num_bytes);
+  freadx(f, new_data.get(), num_bytes);
+  this->data.raw = new_data.release();
 }
 
 Image::Image(const char* filename, ssize_t width, ssize_t height,
@@ -546,8 +548,9 @@ Image::Image(const char* filename, ssize_t width, ssize_t height,
       max_value(max_value ? max_value : mask_for_width(this->channel_width)) {
   auto f = fopen_unique(filename, "rb");
   size_t num_bytes = this->get_data_size();
-  this->data.raw = malloc(num_bytes);
-  freadx(f.get(), this->data.raw, num_bytes);
+  auto new_data = malloc_unique(num_bytes);
+  freadx(f.get(), new_data.get(), num_bytes);
+  this->data.raw = new_data.release();
 }
 
 Image::Image(const std::string& filename, ssize_t width, ssize_t height,
